@@ -583,6 +583,9 @@ public:
       if (entry_in_this_cycle) {
         new_pre |= entry_pre;
       }
+      if (m_assumptions && !m_assumptions->empty()) {
+        new_pre = strengthen(head, new_pre);
+      }
       crab::CrabStats::stop("Fixpo.join_predecessors");
       crab::CrabStats::resume("Fixpo.check_fixpoint");
       bool fixpoint_reached = new_pre <= pre;
@@ -619,6 +622,9 @@ public:
       }
       if (entry_in_this_cycle) {
         new_pre |= entry_pre;
+      }
+      if (m_assumptions && !m_assumptions->empty()) {
+        new_pre = strengthen(head, new_pre);
       }
       crab::CrabStats::stop("Fixpo.join_predecessors");
       crab::CrabStats::resume("Fixpo.check_fixpoint");
